@@ -29,6 +29,7 @@ type Field struct {
 	Mention   bool   `json:"mention,omitempty"`    // the comment merely mentions @tag inside prose
 	Block     bool   `json:"block,omitempty"`      // trailing /* ... */ comment
 	Block2    string `json:"block2,omitempty"`     // an additional /* ... */ comment on the same line, before the trailing comment
+	TagSep    string `json:"tag_sep,omitempty"`    // what separates the items of the existing tag literal instead of one blank ("  ", "\t"), and whether blanks pad the literal inside the back-quotes (a leading "^")
 	RawTag    string `json:"raw_tag,omitempty"`    // literal text between the back-quotes instead of Tags (a tag that is not in key:"value" form)
 }
 
@@ -78,6 +79,15 @@ func (f Field) render() string {
 			b.WriteString(" `" + f.RawTag + "`")
 		} else if f.Interp {
 			b.WriteString(" " + fmt.Sprintf("%q", renderTags(f.Tags)))
+		} else if f.TagSep != "" {
+			sep, pad := f.TagSep, ""
+			if strings.HasPrefix(sep, "^") {
+				sep, pad = sep[1:], " "
+			}
+			if sep == "" {
+				sep = " "
+			}
+			b.WriteString(" `" + pad + strings.ReplaceAll(renderTags(f.Tags), "\" ", "\""+sep) + pad + "`")
 		} else {
 			b.WriteString(" `" + renderTags(f.Tags) + "`")
 		}
@@ -244,6 +254,14 @@ func genField(r *detsim.Rand, i int, annotate bool) Field {
 		// values an escaping round trip would not leave alone: backslashes (proto2 defaults), a tab, an ideographic space, percent signs
 		f.Tags = append(f.Tags, []KV{{"protobuf_def", "bytes,9,opt,name=dir,def=C:\\\\tmp\\\\x"}, {"comment", "全角\u3000空格"}, {"fmt", "100%d of %s"}, {"path", "a\\b\tc"}}[r.Intn(4)])
 	}
+	if r.Chance(1, 12) {
+		// a literal that is not in the canonical one-blank form (hand-edited, another generator), or with an item whose value is empty:
+		// what the tool writes on the first run must already be what it writes on the second (seeded C07s spliced into the old bytes)
+		f.TagSep = []string{"  ", "\t", "^", "^  ", "   "}[r.Intn(5)]
+		if r.Chance(1, 3) {
+			f.Tags = append(f.Tags, KV{"bson", ""})
+		}
+	}
 	if annotate {
 		f.Trailing = trailings[r.Intn(len(trailings))]
 		n := 1 + r.Intn(3)
@@ -312,36 +330,37 @@ func GenHealthy(r *detsim.Rand, pkg string, annotated bool) *GoFile {
 
 // Unexpected valid-Go shapes (C19): the tool must not crash on them.
 var UnexpectedKinds = []string{
-	"no-tag-literal",            // a field with an @tag comment but no tag literal
-	"mention-only",              // a comment that merely mentions @tag, on a field without a tag literal
-	"mention-with-tag",          // a comment that merely mentions @tag, on a field that has a tag literal
-	"tag-without-kv",            // "@tag" followed by text that contains no k:"v"
-	"bare-tag-eol",              // "@tag" at the very end of the comment
-	"grouped-types",             // type ( A struct{...}; B struct{...} )
-	"local-type",                // an annotated type declared inside a function
-	"embedded-field",            // embedded field with an annotation
-	"embedded-no-tag",           // embedded field, annotation, no tag literal
-	"multi-name-field",          // A, B string `..` // @tag ...
-	"generic-struct",            // type G[T any] struct
-	"interpreted-tag",           // tag literal written as "..." instead of `...`
-	"block-comment",             // trailing /* @tag ... */
-	"empty-struct",              // struct without fields, annotated neighbour
-	"anonymous-struct-field",    // field whose type is an inline struct with its own annotated field
-	"empty-import-group",        // import () before the types
-	"empty-type-group",          // type () before the types
-	"empty-var-const-groups",    // const () and var ()
-	"crlf-line-endings",         // the whole file uses \r\n
-	"doc-comment-tag",           // the annotation sits in the leading (doc) comment of a field, not the trailing one
-	"two-tag-comments",          // a block comment and a line comment on one field, each with its own @tag
-	"two-tag-comments-junk",     // the same on a field whose existing tag literal is long and not in key:"value" form, as the last field of the file
-	"junk-tag-literal",          // one annotation on a field whose existing tag literal is not in key:"value" form
-	"line-directive",            // a //line directive naming an existing non-Go sibling, before the annotated fields
-	"utf8-bom",                  // a byte order mark in front of the package clause (every offset is 3 bytes further than the characters suggest)
-	"no-final-newline",          // the file ends right after the last closing brace
-	"very-long-line",            // a 70..200 KB one-line constant in front of the annotated types
-	"cr-inside-raw-tag",         // a lone carriage return inside the back-quoted tag literal (the scanner drops it from the literal's value: the AST's end offset is one byte short)
-	"doc-and-trailing-tags",     // one field annotated twice: in the comment line above it and in its trailing comment (seeded C07n read both and made two overlapping areas)
-	"nested-struct-both-levels", // a field of anonymous struct type with its own tag and annotation, annotated inner fields, annotated siblings after it, at the end of the file
+	"no-tag-literal",             // a field with an @tag comment but no tag literal
+	"mention-only",               // a comment that merely mentions @tag, on a field without a tag literal
+	"mention-with-tag",           // a comment that merely mentions @tag, on a field that has a tag literal
+	"tag-without-kv",             // "@tag" followed by text that contains no k:"v"
+	"bare-tag-eol",               // "@tag" at the very end of the comment
+	"grouped-types",              // type ( A struct{...}; B struct{...} )
+	"local-type",                 // an annotated type declared inside a function
+	"embedded-field",             // embedded field with an annotation
+	"embedded-no-tag",            // embedded field, annotation, no tag literal
+	"multi-name-field",           // A, B string `..` // @tag ...
+	"generic-struct",             // type G[T any] struct
+	"interpreted-tag",            // tag literal written as "..." instead of `...`
+	"block-comment",              // trailing /* @tag ... */
+	"empty-struct",               // struct without fields, annotated neighbour
+	"anonymous-struct-field",     // field whose type is an inline struct with its own annotated field
+	"empty-import-group",         // import () before the types
+	"empty-type-group",           // type () before the types
+	"empty-var-const-groups",     // const () and var ()
+	"crlf-line-endings",          // the whole file uses \r\n
+	"doc-comment-tag-no-literal", // an @tag (or a mere mention of one) in the comment line ABOVE a field that has no tag literal
+	"doc-comment-tag",            // the annotation sits in the leading (doc) comment of a field, not the trailing one
+	"two-tag-comments",           // a block comment and a line comment on one field, each with its own @tag
+	"two-tag-comments-junk",      // the same on a field whose existing tag literal is long and not in key:"value" form, as the last field of the file
+	"junk-tag-literal",           // one annotation on a field whose existing tag literal is not in key:"value" form
+	"line-directive",             // a //line directive naming an existing non-Go sibling, before the annotated fields
+	"utf8-bom",                   // a byte order mark in front of the package clause (every offset is 3 bytes further than the characters suggest)
+	"no-final-newline",           // the file ends right after the last closing brace
+	"very-long-line",             // a 70..200 KB one-line constant in front of the annotated types
+	"cr-inside-raw-tag",          // a lone carriage return inside the back-quoted tag literal (the scanner drops it from the literal's value: the AST's end offset is one byte short)
+	"doc-and-trailing-tags",      // one field annotated twice: in the comment line above it and in its trailing comment (seeded C07n read both and made two overlapping areas)
+	"nested-struct-both-levels",  // a field of anonymous struct type with its own tag and annotation, annotated inner fields, annotated siblings after it, at the end of the file
 }
 
 // GenUnexpected draws a valid Go file that contains the given shape, after at
@@ -413,6 +432,11 @@ func GenUnexpected(r *detsim.Rand, pkg, kind string) *GoFile {
 		g.Empty = "const,var"
 	case "crlf-line-endings":
 		g.CRLF = true
+	case "doc-comment-tag-no-literal":
+		f := genField(r, len(s.Fields), false)
+		f.NoTag = true
+		f.Doc = []string{"说明 @tag valid:\"required\"", "Deprecated: use the @tag valid:\"required\" annotation instead", "@tag x"}[r.Intn(3)]
+		s.Fields = append(s.Fields, f)
 	case "doc-comment-tag":
 		f := genField(r, len(s.Fields), false)
 		f.Doc = "说明 @tag valid:\"required\" json:\"doc_only\""
